@@ -61,6 +61,21 @@ func c13EnvBlocked() c13Blocked {
 	return r
 }
 
+// c13ExtLookup: an immutable external lookup that knows one name
+type c13ExtLookup struct{}
+
+func (c13ExtLookup) Get(s string) (reflect.Value, error) {
+	if s == "kx" {
+		return reflect.ValueOf("X"), nil
+	}
+	return reflect.Value{}, fmt.Errorf("undefined symbol '%s'", s)
+}
+func (c13ExtLookup) Type(s string) (reflect.Type, error) {
+	return nil, fmt.Errorf("undefined type '%s'", s)
+}
+
+var c13Lookup = c13ExtLookup{}
+
 func init() {
 	wk.Register(&wk.Engine{
 		ID: "C13",
@@ -71,10 +86,10 @@ func init() {
 			}
 			return fw.Plan{
 				Level: "exploration",
-				Rule:  "phase sched: PRNG configurations of 2-3 goroutines x 2-4 operations from {Define, Set, Get, Delete, DeleteGlobal, Copy(+read of the copy), GetValueSymbols, DefineType, Type, GetTypeSymbols, String} on one shared child scope with a read-only parent, unique values per write; the env package of a scratch copy of the repository is rewritten so that every Lock/RLock/Unlock/RUnlock is a scheduling point of a cooperative scheduler (one runnable goroutine, simulated writer-preferring RW lock, deadlock = nothing enabled); every schedule with at most 2 preemptions is enumerated depth-first (up to a cap per configuration; configurations completed under the cap are tagged exhaustive) plus random schedules; each execution's call/return history on the scheduler's logical clock, closed by a read of the final state, is checked by porcupine against a sequential dictionary model. phase race: 8-32 goroutines x hundreds of mixed operations incl. DeepCopy, NewModule, GetEnvFromPath, Addr on shared scopes under the Go race detector at GOMAXPROCS 2 and 16. Non-trivial = an execution with at least two goroutines interleaved; distinct = distinct (initial state, history).",
+				Rule:  "phase sched: PRNG configurations of 2-3 goroutines x 2-4 operations from {Define, Set, Get, Delete, DeleteGlobal, Copy(+read of the copy), GetValueSymbols, DefineType, Type, GetTypeSymbols, String} on one shared child scope with a read-only parent, unique values per write; the env package of a scratch copy of the repository is rewritten so that every Lock/RLock/Unlock/RUnlock is a scheduling point of a cooperative scheduler (one runnable goroutine, simulated writer-preferring RW lock, deadlock = nothing enabled); every schedule with at most 2 preemptions is enumerated depth-first (up to a cap per configuration; configurations completed under the cap are tagged exhaustive) plus random schedules; each execution's call/return history on the scheduler's logical clock, closed by a read of the final state, is checked by porcupine against a sequential dictionary model. phase race: 8-32 goroutines x hundreds of mixed operations incl. DeepCopy, NewModule, GetEnvFromPath, Addr, DefineGlobal, SetExternalLookup on shared scopes under the Go race detector at GOMAXPROCS 2 and 16. Non-trivial = an execution with at least two goroutines interleaved; distinct = distinct (initial state, history).",
 				Assumptions: []string{"scheduling points at lock operations and operation boundaries suffice: code between a release and the same goroutine's next acquisition touches shared state only if it is unsynchronised, which the race phase covers",
 					"the rewrite (sync.RWMutex/sync.Mutex -> verifsync types in env/*.go) preserves the code otherwise; a tree whose env package has no such mutex fails the build of this check rather than passing",
-					"SetExternalLookup concurrent with readers is not among the listed operations and is left out"},
+					"SetExternalLookup (an immutable lookup object) and DefineGlobal take part in the race phase only"},
 				Phases: []fw.Phase{
 					{Name: "sched", Cases: nSched, Chunk: 10, Builder: "c13sched", TimeoutS: 900},
 					{Name: "race", Race: true, Cases: nRace, Chunk: 3, TimeoutS: 900, Jobs: 8},
@@ -131,7 +146,14 @@ func init() {
 						}
 						k := []string{"k1", "k2", "k3", "kp"}[next(4)]
 						var name string
-						switch next(17) {
+						switch next(19) {
+						case 17:
+							// the lookup object itself is immutable: only the scope's field is contended
+							e.SetExternalLookup(c13Lookup)
+							name = "SetExternalLookup"
+						case 18:
+							e.DefineGlobal("g"+k, i)
+							name = "DefineGlobal"
 						case 0, 1:
 							e.Define(k, i)
 							name = "Define"
